@@ -1093,6 +1093,24 @@ def check_C08(cx):
                     return o
                 hists.append(twin(ops_for))
                 meta.append(("fail-after-growth", nl, pre, mode))
+    # (e) a long program, the position moved BACK (to patch the beginning), then forward to the old end again and more code: everything
+    # assembled before is still there
+    for nl in ((700, 1300) if cx.tier == "quick" else (700, 1300, 2500, 3400)):
+        for back in (0, 10, 5990):
+            for mi, mode in enumerate(("plain", "fit16", "count8")):
+                body = b"mov rax, 0x1122334455667788\n" * nl
+                end = 10 * nl
+
+                def ops_for(i, mode=mode, body=body, back=back, end=end):
+                    o = ["A %d %s" % (i, cases.hexs(body)), "O %d %d" % (i, back)]
+                    if mode.startswith("fit"):
+                        o.append("K %d %s" % (i, mode[3:]))
+                    o.append(("C %d 8 %s 1" if mode.startswith("count") else "A %d %s") % (i, cases.hexs(b"mov rbx, 0x8877665544332211")))
+                    o += ["O %d %d" % (i, end), "A %d %s" % (i, cases.hexs(b"mov rcx, 0x1\nret")), "G %d" % i,
+                          "D %d %d %d" % (i, max(0, end - 6100), end + 12), "D %d 0 64" % i]
+                    return o
+                hists.append(twin(ops_for))
+                meta.append(("rewind", nl, back, mode))
     ops, out = tie_api_mod_lf(cx, impl, hists, "C08 internal buffer vs large caller buffer")
     # failing-input search when the recorded length of a library-managed buffer is not the model's: a length that drifts from the mapping
     # shows as a refused or crashing growth once the program is long enough — programs of 120 kB, 420 kB and 1.2 MB of code
@@ -1239,6 +1257,19 @@ def check_C15(cx):
                     h, tl, ne = build(seq, (after[0], after[1], after[2], 0), ("A", again), [0, 3, 17][variant])
                     hists.append(h)
                     meta.append((tl, ne))
+    # several library-managed instances alive at once (created one after the other: their mappings are neighbours); a default-sized one
+    # and a grown one are destroyed, in both orders, with and without creates in between, before the final call on the first one: what
+    # is done with OTHER instances' mappings must not reach it
+    grow = cases.hexs(b"mov rax, 0x1122334455667788\n" * 1300)
+    kills = [["F 1", "F 2"], ["F 2", "F 1"], ["F 1", "N 1 -", "F 2", "F 1"],
+             ["F 1", "F 2", "N 1 -", "N 2 -", "A 2 %s" % grow, "F 2", "F 1"]]
+    for kill in kills:
+        for fin in finals[:2]:
+            h, tl, ne = build([], None, fin, 5)
+            i_tw = max(i for i, x in enumerate(h) if x.startswith("N 0 "))
+            h = ["N 0 -", "A 0 %s" % cases.hexs(good[0]), "N 1 -", "N 2 -", "A 2 %s" % grow] + kill + h[1:i_tw] + ["N 0 -"] + h[i_tw + 1:]
+            hists.append(h)
+            meta.append((tl, ne))
     nex = len(hists)
     for _ in range(300 if cx.tier == "quick" else 3000):
         seq = [r.choice(alphabet) for _ in range(r.choice([4, 6, 10]))]
@@ -2664,7 +2695,7 @@ ENC_THEOREMS = {
     "C01": ["AL.Properties.Sweep.c01_sweep", "AL.Properties.C01.nop_table_decodes", "AL.Properties.C01.no_operand_lines", "AL.Properties.C01.letter_case_irrelevant", "AL.Properties.C01.regpair_fields"],
     "C02": ["AL.Properties.Sweep.c02_sweep", "AL.Properties.Sweep.c02_sweep_mixed", "AL.Properties.Sweep.c02_sweep_extreme", "AL.Properties.C02.disp_field_reads_back", "AL.Properties.C02.decoder_reads_every_operand", "AL.Properties.C02.mov_load_every_disp", "AL.Properties.C02.mov_load_text", "AL.Lemmas.MemText.mem_line", "AL.Lemmas.MemLoad.mem_bytes", "AL.Lemmas.MemLoad.memBytes_canonical", "AL.Spec.X86.leVal_assembleConst", "AL.Spec.X86.toSigned_roundtrip",
             "AL.Properties.C11.swap_same_address", "AL.Properties.C11.nobase_scale2_same_address", "AL.Properties.C11.nobase_scale1_same_address"],
-    "C03": ["AL.Properties.Sweep.c03_sweep", "AL.Properties.C03.written_number_value", "AL.Properties.C03.written_number_value_padded", "AL.Properties.C03.imm_field_reads_back", "AL.Properties.C03.imm_field_dword", "AL.Properties.C03.imm_field_qword",
+    "C03": ["AL.Properties.Sweep.c03_sweep", "AL.Properties.Sweep.c03_sweep_padded", "AL.Properties.C03.written_number_value", "AL.Properties.C03.written_number_value_padded", "AL.Properties.C03.imm_field_reads_back", "AL.Properties.C03.imm_field_dword", "AL.Properties.C03.imm_field_qword",
             "AL.Properties.C03.mov_r64_hex", "AL.Properties.C03.mov_r64_neg_hex", "AL.Properties.C03.mov_r64_dec", "AL.Properties.C03.mov_r64_neg_dec",
             "AL.Lemmas.MovImm.mov_bytes", "AL.Lemmas.MovText.mov_line", "AL.Spec.MovImm.movResult_movBytes",
             "AL.Properties.C03.alu_r64_hex", "AL.Properties.C03.alu_r64_neg_hex", "AL.Properties.C03.alu_r64_dec", "AL.Properties.C03.alu_r64_neg_dec",
@@ -2672,7 +2703,7 @@ ENC_THEOREMS = {
             "AL.Lemmas.assembleImm_dword", "AL.Lemmas.assembleImm_qword", "AL.Lemmas.assembleImm_reduced", "AL.Lemmas.assembleConst_pad",
             "AL.Lemmas.strtoul_dec", "AL.Lemmas.strtoul_hex", "AL.Lemmas.strtoul_neg_dec", "AL.Lemmas.strtoul_neg_hex"],
     "C04": ["AL.Properties.Sweep.c04_sweep", "AL.Properties.C04.vex2_is_vex3", "AL.Properties.C04.vex_prefix_fields", "AL.Properties.C04.vecpair_fields", "AL.Properties.C01.regpair_fields"],
-    "C05": ["AL.Properties.Sweep.c05_sweep", "AL.Properties.C05.rel_field_reads_back", "AL.Properties.C05.written_displacement", "AL.Properties.C03.written_number_value_padded",
+    "C05": ["AL.Properties.Sweep.c05_sweep", "AL.Properties.Sweep.c05_sweep_padded", "AL.Properties.C05.rel_field_reads_back", "AL.Properties.C05.written_displacement", "AL.Properties.C03.written_number_value_padded",
             "AL.Properties.C05.rel_branch_every_d", "AL.Properties.C05.rel_branch_text_dec", "AL.Properties.C05.rel_branch_text_neg_dec",
             "AL.Properties.C05.rel_branch_text_hex", "AL.Properties.C05.rel_branch_text_neg_hex", "AL.Lemmas.BranchText.branch_line", "AL.Lemmas.Branch.relKeys_classified", "AL.Lemmas.Branch.j_bytes", "AL.Lemmas.Branch.c_bytes", "AL.Lemmas.Branch.r_bytes"],
 }
@@ -3266,6 +3297,15 @@ def check_C19(cx):
     for off in list(range(5975, 6001)):
         hists.append(["N 0 -", "A 0 %s" % cases.hexs(prog), "O 0 %d" % off, "W 0 %s ok" % outp, "D 0 0 %d" % off, "F 0"])
         meta.append(("bin", off))
+    # ... whatever the history: after a call that was refused (the offset and the code in front of it stay defined), and on an
+    # instance that has assembled nothing and was only positioned by asm_set_offset
+    for off in (5, 17, 29):
+        for variant in range(3):
+            pre = [["A 0 %s" % cases.hexs(prog), "A 0 %s" % cases.hexs(b"bogus rax")],
+                   ["A 0 %s" % cases.hexs(prog), "C 0 8 %s 1" % cases.hexs(b"nop\nmov rax, [rbx")],
+                   ["G 0", "G 0"]][variant]
+            hists.append(["N 0 300 cc"] + pre[:1] + ["O 0 %d" % off] + pre[1:] + ["W 0 %s ok" % outp, "D 0 0 %d" % off, "F 0"])
+            meta.append(("binh", off))
     hists.append(["N 0 300 cc", "A 0 %s" % cases.hexs(prog), "W 0 %s bad" % os.path.join(tmp, "no", "such", "dir", "o.bin"), "F 0"])
     meta.append(("bin", "unwritable"))
     # a long history of failing file calls in front of a valid one, in a process with a small descriptor budget: the file entry points
@@ -3299,6 +3339,10 @@ def check_C19(cx):
             k = 3 + m[1]
             if o[k] != o[k + 1] or o[k + 2] != o[k + 3] or o[k + 4] != o[k + 5]:
                 bad = "after %d failing file calls the file entry point and the string entry point on the file's contents differ" % m[1]
+        elif m[0] == "binh":
+            rc, filehex = o[4].split()
+            if rc != "0" or filehex != o[5]:
+                bad = "after this history the created file does not hold exactly the bytes [0, asm_get_offset)"
         elif m[0] == "bin":
             rc, filehex = o[3].split() if m[1] != "unwritable" else o[2].split()
             if m[1] == "unwritable":
